@@ -230,6 +230,25 @@ def kind_of_meta(m):
     return [2]
 
 
+def pmeta_sx(m):
+    """pandas-metadata block -> the s-expression Cmd_Partition.as_pmeta_f reads: (pandas_type numpy_type (labels-block)?)"""
+    labels = (m.get("metadata") or {}).get("labels") if m.get("pandas_type") == "categorical" else None
+    return [enc(str(m.get("pandas_type"))), enc(str(m.get("numpy_type"))), [pmeta_sx(labels)] if labels else []]
+
+
+def kind_sx_norm(k):
+    """kind as printed by pqref (booleans as 0/1) -> the harness notation"""
+    if not isinstance(k, list):
+        return k
+    if k and k[0] == 0:
+        return [0, bool(k[1]), k[2]]
+    if k and k[0] in (3, 4):
+        return [k[0], bool(k[1])]
+    if k and k[0] == 5 and len(k) > 1:
+        return [5, kind_sx_norm(k[1])]
+    return k
+
+
 def kind_of_dtype(dt):
     """dtype of a frame column -> (model kind, value-kind letter the read must yield)"""
     if isinstance(dt, pd.CategoricalDtype):
@@ -472,7 +491,8 @@ def coqchk_props(ctx, pid):
 # ----------------------------------------------------------------------------- translator paths2coq (C08, C14)
 PATHS_FUNCS = ["util.analyse_paths", "util._strip_path_tail", "util.path_string", "util._val_to_num",
                "writer.partition_on_columns (directory naming)", "api.paths_to_cats", "api._path_to_cats",
-               "util.val_from_meta (bool literals)", "util.metadata_from_many (fast-path relative path)"]
+               "util.val_from_meta (bool literals, dispatch)", "util.metadata_from_many (fast-path relative path)",
+               "core.read_row_group (partition-column fill)"]
 
 
 def filter_proof_blocks(text, ok_units):
